@@ -227,6 +227,14 @@ def stepBackend (st : SuiteState) (toks : List String) : SuiteState × String :=
     | .error e => (st, s!"stream err {errStr e}")
     | .panic => (st, "stream PANIC")
   | "echo" :: _ => (st, " ".intercalate toks)
+  | ["arm", g] => (st, s!"arm {g}")
+  | ["disarm", g] => (st, s!"disarm {g}")
+  | ["await", "retry.step"] => (st, s!"await retry.step {if st.b.retryQ.isEmpty then 0 else 1}")
+  | ["retry"] =>
+    let f := match parseFaults opts with
+      | f :: _ => f
+      | [] => Fault.none
+    if st.b.retryQ.isEmpty then (st, "retry none") else ({ st with b := doRetry c st.b f }, "retry ok")
   | ["rev"] => (st, s!"rev {st.b.committed}")
   | ["setrev", r] =>
     ({ st with b := { st.b with committed := atou r, dealt := max st.b.dealt (atou r) } }, "setrev ok")
